@@ -135,3 +135,17 @@ package chain
 //@ func accountPool.DeleteMomentum(ap, detailed)
 //@   requires ap != nil
 //@   ensures[pool-dropped] len(ap.managers) == 0 && ap.managers != nil
+
+// ---- C14: after a momentum is inserted the pool is rebuilt from the NEW confirmed state ------------------------------------------
+// Every account that had a manager either has none afterwards (nothing left uncommitted) or has a NEW manager built on the
+// account's current stable database; no manager built on an older confirmed state survives.
+//@ model Stable stableDB map[arr]int            // address -> the account's current confirmed database
+//@ func Stable.GetStableAccountDB(self, address)
+//@   ensures int(result) == self.stableDB[address]
+//@   modifies nothing
+//@ func accountPool.rebuild(ap, detailed) -> (err)
+//@   requires ap != nil && detailed != nil && detailed.Momentum != nil && ap.managers != nil
+//@   loop 2
+//@     invariant forall k int :: 0 <= k && k <= rangeindex#1 ==> (has(ap.managers, addresses[k]) ==> ap.managers[addresses[k]].base == ap.stable.stableDB[addresses[k]])
+//@     invariant ap.managers == old(ap.managers) && ap.stable == old(ap.stable)
+//@   ensures-local[no-stale-manager-survives] err == nil ==> (forall k int :: 0 <= k && k < len(addresses) ==> (has(ap.managers, addresses[k]) ==> ap.managers[addresses[k]].base == ap.stable.stableDB[addresses[k]]))
